@@ -83,3 +83,12 @@ package crypki
 //@   loop 1:
 //@     invariant len(endpoints) == len(conf.CrypkiEndpoints) && fresh(arr(endpoints)) && off(endpoints) == 0
 //@     invariant forall(i, 0 <= i && i <= rangeindex, endpoints[i] == conf.CrypkiEndpoints[i] + ":" + itoa(conf.CrypkiPort))
+
+//@ # ---------------------------------------------------------------- C02: the fixed default extension set
+//@ ghost func defaultExtDom(m map[string]string) bool = mapdom(m) == with(with(with(with(with(nokeys(m), "permit-pty", true), "permit-X11-forwarding", true),
+//@     "permit-agent-forwarding", true), "permit-port-forwarding", true), "permit-user-rc", true)
+//@ func GetDefaultExtension()
+//@   ensures result != nil && fresh(result)
+//@   ensures [exactly-the-five-default-extensions] defaultExtDom(result)
+//@   ensures [all-values-empty] result["permit-pty"] == "" && result["permit-X11-forwarding"] == "" && result["permit-agent-forwarding"] == "" &&
+//@     result["permit-port-forwarding"] == "" && result["permit-user-rc"] == ""
